@@ -1816,12 +1816,14 @@ package connect
 //@   ensures callres("NewClient$2.unaryFunc", 1, 1) != nil ==> err == callres("NewClient$2.unaryFunc", 1, 1) && res == nil   // label: errors-pass-through-unchanged   // tags: C02
 
 //@ func (*Client).CallServerStream(c, ctx, request) (res, err)
-//@   tags C02, C04, C11, C12
+//@   tags C02, C04, C05, C08, C10, C11, C12
 //@   requires c != nil && request != nil && (c.err == nil ==> c.config != nil && c.protocolClient != nil)
 //@   assigns everything
 //@   ensures old(c.err) != nil ==> err == old(c.err) && res == nil
 //@   assert@call(mergeHeaders#1): arg0 == callres("StreamingClientConn.RequestHeader", 1) && arg1 == request.header   // label: request-headers-reach-the-connection   // tags: C11
 //@   assert@call((*Client).newConn#1): arg2 == 2   // label: server-stream-calls-are-labelled-server-stream   // tags: C12
+//@   assert@call(protocolClient.WriteRequestHeader#1): arg0 == c.protocolClient && arg1 == 2 && arg2 == callres("StreamingClientConn.RequestHeader", 2) && called("mergeHeaders", 1)   // label: the-protocol's-request-headers-are-written-over-whatever-the-Request's-map-carried   // tags: C08, C05, C10
+//@   ensures called("mergeHeaders", 1) ==> called("protocolClient.WriteRequestHeader", 1)   // label: after-the-Request's-headers-are-merged-the-protocol's-own-are-written-again   // tags: C08, C05, C10
 //@   ensures called("StreamingClientConn.Send", 1) && callres("StreamingClientConn.Send", 1) != nil && Is(callres("StreamingClientConn.Send", 1), io.EOF) && callres("StreamingClientConn.CloseRequest", 2) == nil ==> err == nil && res != nil && res.conn == callres("(*Client).newConn", 1)   // label: a-write-side-eof-does-not-hide-the-server's-answer   // tags: C02, C04
 //@   ensures called("StreamingClientConn.Send", 1) && callres("StreamingClientConn.Send", 1) != nil && !Is(callres("StreamingClientConn.Send", 1), io.EOF) ==> err == callres("StreamingClientConn.Send", 1) && res == nil   // label: a-client-side-send-failure-is-returned
 
